@@ -1,0 +1,211 @@
+//go:build verif
+
+package vm
+
+import (
+	"runtime"
+	"sync"
+	"sync/atomic"
+	"time"
+)
+
+// Verification hooks (build tag `verif`, add-only).
+//
+// verifPoint is called at the synchronisation points of the promise
+// machinery: the AWAIT lock/check/suspend path, the continuation
+// registration in executeBytecodePromise and the lock/publish/enqueue steps of
+// Promise.Resolve/Reject/ResolveReject.  When a schedule seed is set it
+// performs seeded runtime.Gosched() calls / short sleeps at these points (a
+// randomised exploration of their interleavings) and, when tracing is on,
+// records (goroutine, point, promise, task) events and a per-promise
+// settlement counter.  It never changes anything but timing.
+// Without the tag the functions are empty (verif_hooks_noverif.go).
+
+// Points reported to verifPoint.
+const (
+	VerifAwaitEnter      = iota // AWAIT: before promise.m.Lock()
+	VerifAwaitLocked            // AWAIT: lock taken, state not yet examined
+	VerifAwaitSuspend           // AWAIT: promise unresolved, about to suspend (lock held)
+	VerifAwaitFast              // AWAIT: promise already resolved, lock released
+	VerifTaskRun                // executeBytecodePromise: a task is (re)started on a pool thread
+	VerifRegister               // executeBytecodePromise: before RegisterContinuationUnsafe (lock held)
+	VerifRegistered             // executeBytecodePromise: continuation registered, before Unlock
+	VerifUnlocked               // executeBytecodePromise: awaited promise unlocked
+	VerifSettleEnter            // Resolve/Reject/ResolveReject: before p.m.Lock()
+	VerifSettleLocked           // settle: lock taken, nothing published yet
+	VerifSettlePublished        // settle: result published, before enqueueContinuations
+	VerifEnqueue                // enqueueContinuations: before one continuation is sent to the queue
+	VerifSettleEnqueued         // settle: continuations enqueued, before Unlock
+	VerifSettleDone             // settle: unlocked
+	verifPointCount
+)
+
+// VerifEvent is one trace entry: sequence number, goroutine id, point,
+// promise id and task id (ids are small integers assigned in order of first
+// appearance; 0 = none).
+type VerifEvent [5]int64
+
+type verifState struct {
+	seed    uint64
+	trace   bool
+	weights [verifPointCount]uint8 // per-point delay profile derived from the seed
+	n       atomic.Uint64          // draw counter
+	delays  atomic.Int64           // number of yields/sleeps performed
+	counts  [verifPointCount]atomic.Int64
+
+	mu      sync.Mutex
+	ids     map[*Promise]int64
+	events  []VerifEvent
+	settles map[int64]int
+}
+
+var verifCur atomic.Pointer[verifState]
+
+func verifMix(x uint64) uint64 {
+	x += 0x9e3779b97f4a7c15
+	x = (x ^ (x >> 30)) * 0xbf58476d1ce4e5b9
+	x = (x ^ (x >> 27)) * 0x94d049bb133111eb
+	return x ^ (x >> 31)
+}
+
+// VerifSetSched installs a new schedule-perturbation state.  seed == 0
+// disables the delays; trace enables event recording.  Any previous trace is
+// discarded.
+func VerifSetSched(seed int64, trace bool) {
+	if seed == 0 && !trace {
+		verifCur.Store(nil)
+		return
+	}
+	s := &verifState{seed: uint64(seed), trace: trace, ids: map[*Promise]int64{}, settles: map[int64]int{}}
+	if seed != 0 {
+		// every seed gets its own profile: which points are delayed and how
+		// strongly (0 = never … 4 = almost always), so that single windows are
+		// stretched in some runs and everything is jittered in others
+		h := verifMix(uint64(seed))
+		for i := range s.weights {
+			h = verifMix(h + uint64(i))
+			switch h % 8 {
+			case 0, 1, 2:
+				s.weights[i] = 0
+			case 3, 4:
+				s.weights[i] = 1
+			case 5:
+				s.weights[i] = 2
+			case 6:
+				s.weights[i] = 3
+			default:
+				s.weights[i] = 4
+			}
+		}
+	}
+	verifCur.Store(s)
+}
+
+// VerifTakeTrace returns the recorded events, the settlement count per
+// promise id and the number of delays performed, and keeps the state
+// installed (events recorded later are appended to a fresh list).
+func VerifTakeTrace() (events []VerifEvent, settles map[int64]int, delays int64) {
+	s := verifCur.Load()
+	if s == nil {
+		return nil, nil, 0
+	}
+	s.mu.Lock()
+	events, settles = s.events, s.settles
+	s.events, s.settles = nil, map[int64]int{}
+	s.mu.Unlock()
+	return events, settles, s.delays.Load()
+}
+
+// VerifEventCount reports how many events have been recorded so far (a
+// progress indicator for watchdogs).
+func VerifEventCount() int64 {
+	s := verifCur.Load()
+	if s == nil {
+		return 0
+	}
+	return int64(s.n.Load())
+}
+
+// VerifPointCounts reports how often each point has been passed since
+// VerifSetSched (index = point constant).
+func VerifPointCounts() []int64 {
+	s := verifCur.Load()
+	if s == nil {
+		return nil
+	}
+	out := make([]int64, verifPointCount)
+	for i := range out {
+		out[i] = s.counts[i].Load()
+	}
+	return out
+}
+
+func verifGoid() int64 {
+	var buf [64]byte
+	n := runtime.Stack(buf[:], false)
+	// "goroutine 123 ["
+	var id int64
+	for _, c := range buf[10:n] {
+		if c < '0' || c > '9' {
+			break
+		}
+		id = id*10 + int64(c-'0')
+	}
+	return id
+}
+
+func (s *verifState) id(p *Promise) int64 {
+	if p == nil {
+		return 0
+	}
+	id, ok := s.ids[p]
+	if !ok {
+		id = int64(len(s.ids) + 1)
+		s.ids[p] = id
+	}
+	return id
+}
+
+func verifPoint(point int, p, task *Promise) {
+	s := verifCur.Load()
+	if s == nil {
+		return
+	}
+	k := s.n.Add(1)
+	s.counts[point].Add(1)
+	if s.trace {
+		g := verifGoid()
+		s.mu.Lock()
+		pid, tid := s.id(p), s.id(task)
+		s.events = append(s.events, VerifEvent{int64(len(s.events)), g, int64(point), pid, tid})
+		if point == VerifSettlePublished {
+			s.settles[pid]++
+		}
+		s.mu.Unlock()
+	}
+	if s.seed == 0 {
+		return
+	}
+	w := s.weights[point]
+	if w == 0 {
+		return
+	}
+	r := verifMix(s.seed ^ (k * 0x100000001b3))
+	// probability of acting at this point: w/4 … but never certain
+	if r%9 >= uint64(w)*2 {
+		return
+	}
+	s.delays.Add(1)
+	switch (r >> 8) % 8 {
+	case 0, 1, 2, 3:
+		runtime.Gosched()
+	case 4, 5:
+		time.Sleep(time.Duration(1+(r>>16)%40) * time.Microsecond)
+	case 6:
+		time.Sleep(time.Duration(50+(r>>16)%250) * time.Microsecond)
+	default:
+		for i := 0; i < 3; i++ {
+			runtime.Gosched()
+		}
+	}
+}
